@@ -38,6 +38,52 @@ def setup(tier):
     import ramses_tx.message  # noqa: F401
 
 
+class XEnv:
+    """inputs for the purge / pair scenarios: symbolic (check) or from a counterexample (replay)"""
+
+    def __init__(self, ctx=None, cex=None):
+        self.ctx, self.cex, self.symbolic = ctx, cex, ctx is not None
+
+    def hexs(self, name, n):
+        if self.symbolic:
+            import symx
+
+            return symx.sym_hex(self.ctx, name, n)
+        return self.cex.get(name, "07D0"[:n])
+
+    def chars(self, name, allowed):
+        if self.symbolic:
+            import symx
+
+            return symx.sym_chars(self.ctx, name, 1, allowed=allowed)
+        return self.cex.get(name, allowed[0])
+
+    def real(self, name, lo, hi):
+        if self.symbolic:
+            import symx
+
+            return symx.sym_real(self.ctx, name, lo, hi)
+        return _num(self.cex.get(name, lo))
+
+    def choice(self, name, options):
+        if self.symbolic:
+            import symx
+
+            return symx.choice(self.ctx, name, options)
+        v = self.cex.get(name)
+        return next((o for o in options if str(o) == str(v)), options[0])
+
+    def instant(self, base, off):
+        if self.symbolic:
+            from symx.stubs import SymInstant
+            from symx.values import SymReal
+
+            return SymInstant(base, off if isinstance(off, SymReal) else SymReal.const(off))
+        from datetime import timedelta as _td
+
+        return base + _td(seconds=float(off))
+
+
 class _Loop:
     def __init__(self):
         self.soon = []
@@ -219,9 +265,98 @@ def symx_true(x):
     return x is True or (x is not False and bool(x))
 
 
+def _device(gwy, dev_id=CTL):
+    """a bare Device (it is a _MessageDB): _delete_msg only purges messages whose src is a Device"""
+    from ramses_rf.device import Device
+
+    d = object.__new__(Device)
+    d._gwy = gwy
+    d.id = dev_id
+    d._msgs_, d._msgz_ = {}, {}
+    d.tcs = None
+    return d
+
+
+def run_purge(env, code):
+    """an old array message expires and is purged; a newer per-zone message of the same code must survive"""
+    from datetime import datetime as _dt, timedelta as _td
+
+    from ramses_tx.const import Code
+
+    mk, key, mk_arr = FRESH[code]
+    v2 = env.hexs("v2", 4)
+    zone = "0" + env.chars("z", "0123456789AB")
+    age = env.real("age", 0, 3000)
+    now0 = _dt(2023, 1, 1, 6, 0, 0)
+    gwy = _Gwy(lambda: (env.instant(now0, age)))
+    dev = _device(gwy)
+    m_old = _msg(mk_arr([("0C", "07D0"), ("0D", "0834")]), "2023-01-01T00:00:01.000000", gwy)  # 6 h old: long expired
+    try:
+        m_new = _msg(mk(zone, v2), "2023-01-01T06:00:00.000000", gwy)  # `age` seconds old
+    except Exception:  # noqa: BLE001  (not a decodable value)
+        return None, None, None, None
+    for m in (m_old, m_new):
+        m.src = dev
+    L = _lifetime_secs(m_new)
+    from ramses_rf.entity_base import _MessageDB
+
+    _MessageDB._handle_msg(dev, m_old)
+    _MessageDB._handle_msg(dev, m_new)
+    dev._msg_value_msg(m_old, key=key, zone_idx="0C")  # a read of the expired array schedules its purge ...
+    for fn, a in list(gwy._loop.soon):
+        fn(*a)  # ... which the loop then runs
+    got = dev._msg_value(Code(code), key=key)
+    want = m_new.payload.get(key)
+    return age, L, got, want
+
+
+def run_pair(env):
+    """an attribute fed by two codes (2309 / 2349): the newer message wins whichever code it is"""
+    from ramses_tx.const import Code
+
+    va, vb = env.hexs("va", 4), env.hexs("vb", 4)
+    first = env.choice("older", ["2309", "2349"])
+    gwy = _Gwy(lambda: None)
+    ent = _entity(gwy)
+    f2309 = lambda v: f"045  I --- {CTL} --:------ {CTL} 2309 003 01" + v  # noqa: E731
+    f2349 = lambda v: f"045  I --- {CTL} --:------ {CTL} 2349 007 01" + v + "00FFFFFF"  # noqa: E731
+    older, newer = (f2309, f2349) if first == "2309" else (f2349, f2309)
+    try:
+        m1 = _msg(older(va), "2023-01-01T00:00:01.000000", gwy)
+        m2 = _msg(newer(vb), "2023-01-01T00:00:31.000000", gwy)
+    except Exception:  # noqa: BLE001  (not decodable values)
+        return None, "not-decoded"
+    gwy._now = lambda: env.instant(m2.dtm, 5)
+    ent._handle_msg(m1)
+    ent._handle_msg(m2)
+    got = ent._msg_value((Code._2309, Code._2349), key="setpoint")
+    return got, m2.payload.get("setpoint")
+
+
+def h_purge(ctx, code):
+    age, L, got, want = run_purge(XEnv(ctx=ctx), code)
+    if age is None:
+        return "not-decoded"
+    if L is not None:
+        ctx.assume((age < L).e)
+    ctx.check(D.eq_struct(got, want), "C14:a-purge-of-an-expired-message-keeps-the-newer-one", info="live value lost")
+    return "ok"
+
+
+def h_pair(ctx):
+    got, want = run_pair(XEnv(ctx=ctx))
+    if want == "not-decoded":
+        return want
+    ctx.check(D.eq_struct(got, want), "C14:attribute-is-the-newest-message's-value", info="two-code attribute")
+    return "ok"
+
+
 def queries(tier, seed):
     thorough = tier == "thorough"
     qs = []
+    for code in ("30C9", "2309"):
+        qs.append(Query(f"purge[{code}]", lambda c, code=code: h_purge(c, code), {"h": "purge", "code": code}, group="fresh", max_secs=200, weight=4))
+    qs.append(Query("pair[2309,2349]", h_pair, {"h": "pair"}, group="fresh", max_secs=200, weight=4))
     for (verb, code), frames in sorted(D.corpus().items()):
         if verb not in (" I", "RP"):
             continue
@@ -279,6 +414,12 @@ def replay(item):
     from ramses_tx.packet import Packet
 
     cex, prm, label = item["cex"], item["params"], item["label"]
+    if prm["h"] == "purge":
+        age, L, got, want = run_purge(XEnv(cex=cex), prm["code"])
+        return {"reproduced": got != want, "observed": f"{prm['code']}: expired array purged, newer per-zone message {float(age)} s old (lifetime {L} s): read {got!r}, message says {want!r}", "signature": "fresh: purging an expired message removes a newer one"}
+    if prm["h"] == "pair":
+        got, want = run_pair(XEnv(cex=cex))
+        return {"reproduced": got != want, "observed": f"2309/2349, older code {cex.get('older')}: read {got!r}, newest message says {want!r}", "signature": "fresh[pair]: attribute-is-the-newest-message's-value"}
     if prm["h"] == "expiry":
         pay = prm["pay"]
         if prm["sym_at"]:
